@@ -25,6 +25,7 @@ DECIDES = (
     "links/clamps without vertex, grading/back-porting before assembly, negative chain lengths and radii (C20.GUARD-EVAL); for the "
     "geometric preconditions a raise of the documented exception class exists and, for mutators, dominates the first state change "
     "(C20.GUARD-TABLE)."
+    " LoftedShape refuses a list of mid sketches as soon as ONE of them has a different face count, wherever it stands; Cylinder.fill accepts exactly the segment count of its sketch's outer faces (parts of C20.GUARD-EVAL); raising upper-bound guards against a geometric magnitude compare a non-negative quantity, not the caller's raw signed number (C20.SIGNED-MAGNITUDE); what assemble() records on the mesh clear() resets (C20.LIFECYCLE-STATE = C12.CLEAR-COMPLETE)."
 )
 NOT_DECIDED = "behaviour for inputs that no guard mentions; the numeric value of tolerances."
 ASSUMPTIONS = ["norm(), abs(), len() and squares are non-negative; point_to_plane_distance and friends are summarised from their own returns"]
